@@ -134,9 +134,13 @@ def any_point_in_triangle(triangle, points):
     mtrx = np.linalg.inv(np.vstack(stack).transpose())
     if len(s) == 3:
         mtrx = mtrx[:2]
+    # ps and pt are dimensionless barycentric coordinates. Points on the boundary
+    # of the triangle count as inside; the tolerance keeps that decision independent
+    # of the rounding errors that depend on the scale and orientation of the input.
+    tol = 1e-9
     for point in points:
         ps, pt = np.dot(mtrx, point - a)
-        if ps >= 0 and pt >= 0 and ps + pt <= 1:
+        if ps >= -tol and pt >= -tol and ps + pt <= 1 + tol:
             return True
     return False
 
